@@ -308,6 +308,42 @@ func runC09Race(c *Ctx, cfg c09Race) (sig, msg string) {
 	return "", ""
 }
 
+
+// scenario C: SetReadOnly racing Close.  The yield point after SetReadOnly's closed check lets Close run in
+// the window; whether the write-lock token is then left behind depends on two `select` coin flips, so the
+// scenario is repeated a few times.
+func runC09SetReadOnlyClose(attempts int) (sig, msg string, fired int) {
+	for a := 0; a < attempts; a++ {
+		st := stor.New()
+		st.KeepOps(false)
+		db, err := leveldb.Open(st, &opt.Options{})
+		if err != nil {
+			return "open:error", err.Error(), a
+		}
+		closeDone := make(chan struct{})
+		var once sync.Once
+		leveldb.VerifYield = func(p string) {
+			if p == "s.readonly.locked" {
+				once.Do(func() {
+					go func() { db.Close(); close(closeDone) }()
+					time.Sleep(3 * time.Millisecond) // let Close set the flag and close closeC
+				})
+			}
+		}
+		_, returned := watch(10*time.Second, db.SetReadOnly)
+		leveldb.VerifYield = nil
+		if !returned {
+			return "setReadOnly:close-race:hang", "SetReadOnly racing Close did not return\n" + dumpBlocked(), a
+		}
+		select {
+		case <-closeDone:
+		case <-time.After(10 * time.Second):
+			return "setReadOnly:close-race:write-lock-leaked:close-hang", fmt.Sprintf("attempt %d: SetReadOnly raced Close (Close ran between SetReadOnly's closed check and its second select) and returned; Close has not returned after 10 s\n%s", a, dumpBlocked()), a
+		}
+	}
+	return "", "", attempts
+}
+
 func init() {
 	Registry["C09"] = func(c *Ctx) {
 		c.Res.Rule = "A: single-client scripts (put, sync put, large batch, explicit transaction open/put/commit/discard, CompactRange, get, iterator) with one injected failure window (kind × file type × first occurrence × length × with/without effect) on journal/manifest/table create, write, sync, remove; after every return the lock state (verif export) must be free or owned by the open transaction; after healing, Put and Close must return; B: 4–24 clients mixing Put, large Write, transactions, CompactRange and readers racing one Close, no faults; every call under a watchdog; non-trivial = the fault window was reached or Close raced live clients; distinct by configuration"
@@ -321,6 +357,14 @@ func init() {
 			{"tropen", "trput", "trcommit", "tropen", "trput", "trcommit", "heal", "put"},
 			{"bigwrite", "bigwrite", "put", "compact", "heal", "tropen", "trput", "trcommit"},
 		}
+		// scenario C first (cheap): the SetReadOnly/Close race of the lock-flow model
+		if sig, msg, at := runC09SetReadOnlyClose(c.Scale(16, 200)); sig != "" {
+			c.Res.Violate(sig, msg, map[string]interface{}{"scenario": "SetReadOnly racing Close at the s.readonly yield point", "attempt": at})
+			c.Res.Count("race", "setreadonly-close-fired")
+		} else {
+			c.Res.Count("race", "setreadonly-close-clean")
+		}
+		c.Res.Eval("setreadonly-close", true)
 		n := c.Scale(70, 1500)
 		for i := 0; i < n && c.TimeLeft() && !c.Hung; i++ {
 			r := c.R.Fork()
